@@ -2,6 +2,7 @@
 # Applies every seeded change under /verif/seeded to /repo in turn, runs the check of its property, reverts.
 # Writes /verif/seeded/SWEEP.md. /repo must be clean and must not be used by anything else meanwhile.
 cd /verif
+unset VERIF_BUILD_LOCK
 out=/verif/seeded/SWEEP.md
 echo "# Seeded changes vs checks (tools/sweep_seeded.sh, repo $(git -C /repo rev-parse --short HEAD), $(date -u +%F))" > $out
 echo >> $out
@@ -9,13 +10,16 @@ echo "| change | property | check exit | violations | first fingerprint |" >> $o
 echo "|---|---|---|---|---|" >> $out
 for d in /verif/seeded/C*-m*/; do
   id=$(basename $d); prop=${id%%-*}
+  # one patch at a time under the lock that checks started with VERIF_BUILD_LOCK take for their build phase
+  exec 8>/tmp/verif_repo.lock; flock 8
   git -C /repo diff --quiet || { echo "/repo not clean"; exit 2; }
-  if ! git -C /repo apply --check $d/patch.diff 2>/dev/null; then echo "| $id | $prop | - | - | patch does not apply to HEAD |" >> $out; continue; fi
+  if ! git -C /repo apply --check $d/patch.diff 2>/dev/null; then echo "| $id | $prop | - | - | patch does not apply to HEAD |" >> $out; flock -u 8; exec 8>&-; continue; fi
   git -C /repo apply $d/patch.diff
   res=$(./check $prop 2>&1); rc=$?
   nv=$(echo "$res" | grep -c '^VIOLATION')
   fp=$(echo "$res" | grep -m1 'detail:' | sed -E 's/.*detail: (\[[^]]*\]).*/\1/' | cut -c1-110)
   git -C /repo checkout -- .
+  flock -u 8; exec 8>&-
   echo "| $id | $prop | $rc | $nv | $fp |" >> $out
 done
 echo >> $out
